@@ -26,4 +26,19 @@ PROPS = {
         "theorems": ["offset_exact_or_overflow", "durationSince_exact_or_overflow", "ext_eq_by_value"],
         "assumptions": ["extension values are read from the Debug form of the private structs (Decimal{value}, IPAddr{addr,prefix}, DateTime{epoch}, Duration{ms})"],
     },
+    "C10": {
+        "streams": [("c10", 500, 20000)],
+        "definitional": False,
+        "rule": "per world: gen.rs store + context (all value shapes), a conforming store for a hand-written validator schema, 6 untyped values "
+                "(nested sets/records, entity refs, 4 extension types in constructor and canonical spellings, strings needing escapes, non-BMP, i64 "
+                "extremes, empty sets, record keys that look like escapes), 5 (type, instance) pairs each rendered explicit and 2x with a random "
+                "implicit/explicit choice per node, single-point mutations of every document, fixed probe documents at entity/extension positions, "
+                "open/closed record types; non-trivial = round-tripped value / document with >=1 implicit form (distinct by canonical text)",
+        "theorems": ["json_roundtrip", "json_roundtrip_with", "toJson_refuses_iff", "typed_agrees_explicit", "entity_roundtrip", "store_roundtrip",
+                     "extRoundTrip_decimal", "extRoundTrip_duration", "extRoundTrip_datetime"],
+        "assumptions": ["extension values are compared by represented value; the implementation serialises the constructor call it stored, the model the canonical_repr (the harness re-renders values canonically for the `to` comparison and parses the implementation's own spelling for `of`)",
+                        "ExtRoundTrip for ipaddr (Display of std::net addresses parses back) is a hypothesis of json_roundtrip, checked on the stream; it is false for IPv4-mapped IPv6 addresses, whose canonical_repr is not on the JSON path",
+                        "error classes, not messages; object member order and set element order are canonicalised on both sides",
+                        "transitive closure of the parsed parents is C04's subject: store_roundtrip is stated on the parent lists written (= all ancestors)"],
+    },
 }
